@@ -509,8 +509,8 @@ func checkAssertionFlow(c *core.Ctx) {
 	maybe := lookupConst(p, "octosql", "TypeRelationMaybe")
 	taConst := lookupConst(p, "physical", "ExpressionTypeTypeAssertion")
 	type site struct {
-		fn     string
-		strict bool // vary descriptor.Strict
+		fn           string
+		strict       bool // vary descriptor.Strict
 		needNullable bool
 	}
 	for _, s := range []site{{"(*FunctionExpression).Typecheck", true, false}, {"(*GroupBy).Typecheck", false, true}, {"TypecheckExpression", false, false}} {
